@@ -251,31 +251,26 @@ theorem groupRule_files (r : Rule) (files : List File) (key val : File → Str) 
     exact ⟨f, (List.mem_filter.mp hf).1, rfl⟩
   · simp at hk
 
-theorem allRpcs_files (w : Schema) (x : File × List Nat × Rpc) (h : x ∈ allRpcs w) : x.1 ∈ nonImport w := by
-  unfold allRpcs at h
+theorem rpcTable_files (w : Schema) (x : RpcRow) (h : x ∈ rpcTable w) :
+    ∃ f ∈ nonImport w, x.file = f.path := by
+  unfold rpcTable at h
   obtain ⟨f, hf, hx⟩ := List.mem_flatMap.mp h
   obtain ⟨y, _, rfl⟩ := List.mem_map.mp hx
-  exact hf
+  exact ⟨f, hf, rfl⟩
 
-theorem mem_map_ann_files (w : Schema) (a : Annotation) (r : Rule) (l : List (File × List Nat × Rpc))
-    (hl : ∀ x ∈ l, x ∈ allRpcs w) (ha : a ∈ l.map (fun x => ann r x.1 x.2.1)) :
-    ∃ f ∈ nonImport w, a.file = f.path := by
-  obtain ⟨x, hx, rfl⟩ := List.mem_map.mp ha
-  exact ⟨x.1, allRpcs_files w x (hl x hx), rfl⟩
-
-theorem rpcUnique_files (o : Options) (w : Schema) (a : Annotation) (h : a ∈ rpcUnique o w) :
-    ∃ f ∈ nonImport w, a.file = f.path := by
-  unfold rpcUnique at h
+/-- every annotation of RPC_REQUEST_RESPONSE_UNIQUE is the annotation of a row of the table -/
+theorem rpcUniqueT_sub (o : Options) (ms : List RpcRow) (a : Annotation) (h : a ∈ rpcUniqueT o ms) :
+    ∃ x ∈ ms, a = x.ann := by
+  unfold rpcUniqueT at h
   simp only [List.mem_append] at h
   rcases h with h | h
   · by_cases hs : o.rpcAllowSameRequestResponse = true
     · simp [hs] at h
     · simp only [hs] at h
-      obtain ⟨⟨f', p', m'⟩, hx, ha⟩ := List.mem_flatMap.mp h
-      simp only at ha
+      obtain ⟨x, hx, ha⟩ := List.mem_flatMap.mp h
       split at ha
-      · simp only [List.mem_singleton] at ha; subst ha
-        exact ⟨f', allRpcs_files w _ hx, rfl⟩
+      · simp only [List.mem_singleton] at ha
+        exact ⟨x, hx, ha⟩
       · simp at ha
   · obtain ⟨t, _, ht⟩ := List.mem_flatMap.mp h
     split at ht
@@ -286,14 +281,20 @@ theorem rpcUnique_files (o : Options) (w : Schema) (a : Annotation) (h : a ∈ r
         · simp only [List.mem_append] at ht
           rcases ht with ht | ht
           · split at ht
-            · exact mem_map_ann_files w a _ _
-                (fun x hx => (List.mem_filter.mp (List.mem_filter.mp hx).1).1) ht
+            · obtain ⟨x, hx, rfl⟩ := List.mem_map.mp ht
+              exact ⟨x, (List.mem_filter.mp (List.mem_filter.mp hx).1).1, rfl⟩
             · simp at ht
           · split at ht
-            · exact mem_map_ann_files w a _ _
-                (fun x hx => (List.mem_filter.mp (List.mem_filter.mp hx).1).1) ht
+            · obtain ⟨x, hx, rfl⟩ := List.mem_map.mp ht
+              exact ⟨x, (List.mem_filter.mp (List.mem_filter.mp hx).1).1, rfl⟩
             · simp at ht
-      · exact mem_map_ann_files w a _ _ (fun x hx => (List.mem_filter.mp hx).1) ht
+      · obtain ⟨x, hx, rfl⟩ := List.mem_map.mp ht
+        exact ⟨x, (List.mem_filter.mp hx).1, rfl⟩
+
+theorem rpcUnique_files (o : Options) (w : Schema) (a : Annotation) (h : a ∈ rpcUnique o w) :
+    ∃ f ∈ nonImport w, a.file = f.path := by
+  obtain ⟨x, hx, rfl⟩ := rpcUniqueT_sub o _ a h
+  exact rpcTable_files w x hx
 
 theorem stableNoUnstable_files (w : Schema) (a : Annotation) (h : a ∈ stableNoUnstable w) :
     ∃ f ∈ nonImport w, a.file = f.path := by
